@@ -92,6 +92,8 @@ def run(rep, tier):
             for ov in (("none", "both") if tier == "quick" else ("none", "min", "max", "both")):
                 if k >= 2 and thr and ov == "both" and tier == "quick":
                     continue
+                if k >= 3 and thr and ov != "none":
+                    continue  # 3 intervals x threshold x overrides: the refinement tree gets too large; covered for k <= 2
                 prep_table(rep, "T10-T12-prep", k, thr, ov)
     # structural guards
     f = idx.get("utilities.textgrid_io:getTextgridAsStr")
